@@ -121,11 +121,26 @@ const("tenPowSquareDiv", find_int(ttu, r"pow\.div_rem\(&(\d+)\);\s*let\s+x\s*=")
 shape_ok = ttu is not None and re.search(
     r"let\s+x2\s*=\s*&x\s*\*\s*&x;\s*let\s+x4\s*=\s*&x2\s*\*\s*&x2;\s*let\s+x8\s*=\s*&x4\s*\*\s*&x4;\s*let\s+res\s*=\s*&x8\s*\*\s*&x8;", ttu)
 const("tenPowSquarings", 4 if shape_ok else None, "ten_to_the_uint: number of squarings in the recursive case")
+# the f64 digit estimate of count_decimal_digits_uint: `(uint.bits() as f64 / LOG2_10) as u64`, optionally lowered
+# by `.saturating_sub(N)` (N = 0 when absent)
+def est_sub(body, var):
+    if body is None:
+        return None
+    m = re.search(r"=\s*\(\(\s*%s\.bits\(\)\s+as\s+f64\s*/\s*LOG2_10\s*\)\s*as\s+u64\s*\)\s*\.saturating_sub\(\s*(\d+)\s*\)\s*;" % var, body)
+    if m:
+        return int(m.group(1))
+    if re.search(r"=\s*\(\s*%s\.bits\(\)\s+as\s+f64\s*/\s*LOG2_10\s*\)\s*as\s+u64\s*;" % var, body):
+        return 0
+    return None
+cdd = fn_body(arith, r"fn\s+count_decimal_digits_uint\s*\(")
+const("countDigitsEstSub", est_sub(cdd, "uint"), "count_decimal_digits_uint: amount subtracted (saturating) from the f64 digit estimate")
 mbt = fn_body(arith, r"fn\s+multiply_by_ten_to_the_uint")
 const("mulTenFast", find_bound(mbt, r"if\s+pow\s*(<=?)\s*(\d+)"), "multiply_by_ten_to_the_uint fast path bound")
 
 # ------------------------------------------------------------------ lib.rs
 lib = strip_comments(read("src/lib.rs"))
+grt = fn_body(lib, r"fn\s+get_rounding_term\s*\(")
+const("roundingTermEstSub", est_sub(grt, "num"), "get_rounding_term: amount subtracted (saturating) from the f64 digit estimate")
 ss = fn_body(lib, r"fn\s+set_scale\s*\(")
 vals = find_bounds(ss, r"if\s+scale_diff\s*(<=?)\s*(\d+)")
 const("setScaleFastUp", vals[0] if len(vals) >= 1 else None, "set_scale: u64 fast path bound (growing)")
@@ -188,6 +203,20 @@ divsrc = strip_comments(read("src/impl_ops_div.rs"))
 site_ids.append(("divPrecisionSites", ",".join(sorted(set(re.findall(r"let\s+max_precision\s*=\s*([A-Za-z_0-9]+)\s*;", divsrc)))) or "MISSING"))
 m = re.search(r"fn\s+fmt\(&self,\s*f:\s*&mut\s+fmt::Formatter\)\s*->\s*fmt::Result\s*\{\s*dynamically_format_decimal\(\s*self\.to_ref\(\),\s*f,\s*([A-Za-z_0-9]+),\s*([A-Za-z_0-9]+),", fmt)
 site_ids.append(("displayThresholds", (m.group(1) + "," + m.group(2)) if m else "MISSING"))
+
+# impl_cmp.rs: the bit-length shortcut `b_bits.checked_add(log_scale as u64)`, optionally lowered by `.saturating_sub(N)`
+cmpsrc = strip_comments(read("src/impl_cmp.rs"))
+hbl = fn_body(cmpsrc, r"fn\s+highest_bit_lessthan_scaled\s*\(")
+def pre_sub(body):
+    if body is None or not re.search(r"let\s+log_scale\s*=\s*LOG2_10\s*\*\s*scale\s+as\s+f64\s*;", body):
+        return None
+    m = re.search(r"b_bits\.checked_add\(\s*\(\s*log_scale\s+as\s+u64\s*\)\s*\.saturating_sub\(\s*(\d+)\s*\)\s*\)", body)
+    if m:
+        return int(m.group(1))
+    if re.search(r"b_bits\.checked_add\(\s*log_scale\s+as\s+u64\s*\)", body):
+        return 0
+    return None
+const("highestBitPreSub", pre_sub(hbl), "highest_bit_lessthan_scaled: amount subtracted (saturating) from the f64 estimate of log2(10^scale)")
 
 # ------------------------------------------------------------------ build.rs
 bld = strip_comments(read("build.rs"))
